@@ -183,6 +183,21 @@ def configs():
     out.append(dict(names=["p" * 65, "q" * 300, "r" * 129 + "1", "r" * 129 + "2"],
                     defaults=[0.5, 0.0, 1.0, 1.0], mins=[0.0, -1.0, 0.0, 0.0],
                     maxs=[1.0, 1.0, 2.0, 2.0], check_hitbounds=False, accept_nan=True))
+    # arguments left out at construction (the stored bounds / defaults are what the model
+    # is given: -inf / +inf / zero clipped into the bounds)
+    out.append(dict(names=["a"], defaults=[-1.0], mins=[-INF], maxs=[-1.0],
+                    check_hitbounds=True, accept_nan=False, omit=("defaults", "mins")))
+    out.append(dict(names=["a", "b"], defaults=[2.0, 0.0], mins=[2.0, -3.0], maxs=[INF, INF],
+                    check_hitbounds=True, accept_nan=False, omit=("defaults", "maxs")))
+    out.append(dict(names=["a", "b"], defaults=[0.0, -0.5], mins=[-1.0, -2.0],
+                    maxs=[1.0, -0.5], check_hitbounds=False, accept_nan=True,
+                    omit=("defaults",)))
+    out.append(dict(names=["a"], defaults=[0.0], mins=[-INF], maxs=[INF],
+                    check_hitbounds=True, accept_nan=False,
+                    omit=("defaults", "mins", "maxs")))
+    # a default sitting exactly on a bound (as the shift nu of the Log family does)
+    out.append(dict(names=["a", "b"], defaults=[0.0, 1.0], mins=[0.0, -1.0], maxs=[1.0, 1.0],
+                    check_hitbounds=True, accept_nan=False))
     # an element whose two bounds coincide (a parameter fixed by its bounds), next to a
     # free one
     out.append(dict(names=["fixed", "free"], defaults=[2.0, 0.5], mins=[2.0, 0.0],
@@ -254,8 +269,16 @@ def make(cfg):
     from hydrodiy.data.containers import Vector
     # the names arrive as an array of strings which the caller re-uses afterwards
     narr = np.array(cfg["names"]) if len(cfg["names"]) else cfg["names"]
-    v = Vector(narr, cfg["defaults"], cfg["mins"], cfg["maxs"],
-               check_hitbounds=cfg["check_hitbounds"], accept_nan=cfg["accept_nan"])
+    omit = cfg.get("omit", ())
+    if omit:
+        # arguments left out by the caller: no bound on that side, and defaults equal to
+        # zero moved inside the bounds
+        kw = {k: cfg[k] for k in ("defaults", "mins", "maxs") if k not in omit}
+        v = Vector(narr, check_hitbounds=cfg["check_hitbounds"],
+                   accept_nan=cfg["accept_nan"], **kw)
+    else:
+        v = Vector(narr, cfg["defaults"], cfg["mins"], cfg["maxs"],
+                   check_hitbounds=cfg["check_hitbounds"], accept_nan=cfg["accept_nan"])
     if len(cfg["names"]):
         narr[:] = "zz"
     m = Model(cfg["names"], cfg["defaults"], cfg["mins"], cfg["maxs"],
